@@ -1,5 +1,6 @@
 import Utv.Lemmas.C20
 import Utv.Lemmas.C20Reg
+import Utv.Lemmas.C20Term
 /-!
 C20 — concurrent use is safe, including the first use of a type.
 
@@ -100,9 +101,6 @@ theorem C20_resolved_forever (W : World) (prog : Nat → List Call) (sched sched
     exact hR.mono (run_pending_mono sched' I)
   exact ⟨hR', fun i hr hd => resolved_fty I'.ginv hR' hr hd⟩
 
-/-- thread `k` cannot take a step now: it waits for the lock -/
-def blocked (s : Sys) (k : Nat) : Prop := (s.th k).pc = .lock ∧ s.g.lock ≠ none
-
 /-- No dead-lock: as long as some thread has not finished, some unfinished thread is not blocked (and no
 thread is ever outside the modelled lines). -/
 theorem C20_no_deadlock (W : World) (prog : Nat → List Call) (sched : List Nat)
@@ -117,6 +115,41 @@ theorem C20_no_deadlock (W : World) (prog : Nat → List Call) (sched : List Nat
   | some o =>
     have hcs := (I.tinv o).lockI.mpr hl
     refine ⟨o, ?_, ?_, (I.tinv o).alive⟩
+    · intro hf; simp [hf, PC.inCS] at hcs
+    · intro hb; simp [hb.1, PC.inCS] at hcs
+
+/-- Termination: with `n` threads, a schedule in which every step is taken by a thread that is neither finished
+nor waiting for the lock (`EffRun`) is no longer than the explicit bound `total W n (init W prog)` (linear in
+the number of calls, keywords, fields and pending names). -/
+theorem C20_terminates (W : World) (prog : Nat → List Call) (n : Nat) (sched : List Nat)
+    (h : EffRun W n (init W prog) sched) : sched.length ≤ total W n (init W prog) := by
+  have := effRun_bounded (inv_init W prog) h
+  omega
+
+/-- … and when such a schedule cannot be extended, every one of the `n` threads has finished all its calls
+(with the outcomes `C20_finished_all` states): every call returns. -/
+theorem C20_maximal_run_finishes (W : World) (prog : Nat → List Call) (n : Nat) (sched : List Nat)
+    (h : EffRun W n (init W prog) sched)
+    (hmax : ∀ k, k < n → ¬ effective (run W false (init W prog) sched) k) (k : Nat) (hk : k < n) :
+    ((run W false (init W prog) sched).th k).pc = .fin := by
+  have I := inv_reachable W prog sched
+  apply Classical.byContradiction
+  intro hne
+  have hb : blocked (run W false (init W prog) sched) k := by
+    apply Classical.byContradiction
+    intro hb; exact hmax k hk ⟨hne, hb⟩
+  obtain ⟨_, hl⟩ := hb
+  cases hlk : (run W false (init W prog) sched).g.lock with
+  | none => exact hl hlk
+  | some o =>
+    have hcs := (I.tinv o).lockI.mpr hlk
+    have ho : o < n := by
+      apply Classical.byContradiction
+      intro hno
+      have := effRun_idle h o (by omega)
+      rw [this] at hcs
+      simp [init, PC.inCS] at hcs
+    refine hmax o ho ⟨?_, ?_⟩
     · intro hf; simp [hf, PC.inCS] at hcs
     · intro hb; simp [hb.1, PC.inCS] at hcs
 
@@ -144,6 +177,16 @@ example :
     let s := run W1loc false (init W1loc P2) ([0,0,0,0,0] ++ [1,1,1,1,1] ++ List.replicate 25 0 ++ List.replicate 12 1)
     (s.th 0).pc = .fin ∧ (s.th 1).pc = .fin ∧ (s.th 0).outs = [.ok] ∧ (s.th 1).outs = [.ok] := by
   decide +kernel
+
+/-- a complete run in which every step is effective (thread 1 is never scheduled while it would wait for the
+lock): the hypotheses of `C20_terminates` / `C20_maximal_run_finishes` are satisfiable, and the run ends with both
+threads finished -/
+example :
+    let sched := [0,0,0,0,0] ++ [1,1] ++ List.replicate 19 0 ++ List.replicate 6 1
+    EffRun W1loc 2 (init W1loc P2) sched ∧ sched.length ≤ total W1loc 2 (init W1loc P2)
+      ∧ ((run W1loc false (init W1loc P2) sched).th 0).pc = .fin
+      ∧ ((run W1loc false (init W1loc P2) sched).th 1).pc = .fin :=
+  ⟨effRun_of_B (by decide +kernel), by decide +kernel, by decide +kernel, by decide +kernel⟩
 
 /-! ### The code before the fix (negation witnesses; replayed on the real pre-fix code by the harness) -/
 
